@@ -271,6 +271,10 @@ impl Language for Python {
     }
 
     fn write_type_alias(&mut self, w: &mut dyn Write, ty: &RustTypeAlias) -> std::io::Result<()> {
+        ty.generic_types
+            .iter()
+            .cloned()
+            .for_each(|v| self.add_type_var(v));
         let r#type = self
             .format_type(&ty.r#type, ty.generic_types.as_slice())
             .map_err(|e| std::io::Error::new(std::io::ErrorKind::Other, e))?;
